@@ -41,6 +41,11 @@ pub struct SchedCase {
     /// with split transfers a transient fault can land in the middle of a sample
     #[serde(default = "crate::scenario::IoKnobs::plain")]
     pub io: crate::scenario::IoKnobs,
+    /// real milliseconds to let pass between the two muxing runs that are compared. The library
+    /// has no clock seam because it reads no clock; this is the one place where real time is
+    /// used, to expose an output that depends on the time of day (three cases per run).
+    #[serde(default)]
+    pub pause_ms: u32,
 }
 
 fn sample_code(o: &SampleOutcome) -> String {
@@ -243,7 +248,17 @@ impl Prop for C15 {
             Tier::Thorough => 4_000_000,
         }
     }
-    fn gen(seed: u64, _idx: u64, _tier: Tier) -> SchedCase {
+    fn gen(seed: u64, idx: u64, tier: Tier) -> SchedCase {
+        if idx < 3 {
+            // the same history muxed twice, 1.1 s of real time apart
+            let mut r = Rng::new(seed);
+            let sc = small_scenario(r.next_u64() >> 16);
+            let mut c = Self::gen(seed, idx + 1000, tier);
+            c.src = IoSrc::Mux(sc);
+            c.calls.truncate(4);
+            c.pause_ms = 1100;
+            return c;
+        }
         let mut r = Rng::new(seed);
         let src = match r.below(12) {
             0..=3 => IoSrc::Mux(small_scenario(r.next_u64() >> 16)),
@@ -292,7 +307,7 @@ impl Prop for C15 {
         };
         let calls = gen_calls(&mut r, &tracks, n);
         let io = if r.chance(1, 2) { crate::scenario::IoKnobs::plain() } else { crate::scenario::IoKnobs::gen(&mut r) };
-        SchedCase { src, calls, io }
+        SchedCase { src, calls, io, pause_ms: 0 }
     }
     fn eval(case: &SchedCase, st: &mut Stats) -> Vec<Violation> {
         let prop = "C15";
@@ -301,6 +316,10 @@ impl Prop for C15 {
         let (img, split) = match &case.src {
             IoSrc::Mux(sc) => {
                 let a = mux_bytes(sc);
+                if case.pause_ms > 0 {
+                    std::thread::sleep(std::time::Duration::from_millis(case.pause_ms as u64));
+                    st.inc("probe.double_mux_across_a_second_boundary");
+                }
                 let b = mux_bytes(sc);
                 st.inc("double_mux_runs");
                 if a != b {
@@ -436,7 +455,7 @@ impl Prop for C15 {
         v
     }
     fn rule() -> String {
-        "seeded reader schedules (<= 300 calls of read_sample / sample_offset / sample_count / all track accessors / movie accessors / metadata; ids biased to 0,1,2,count-1,count,count+1,u32::MAX; unknown track ids; immediate repeats, A-B-A patterns, descending sweeps) over muxer-made, canned and packager images (fragmented ones also as init+segment), with transient hard stream faults inside some read_sample calls (the stream under the long-lived reader may split transfers or report EINTR, so a fault can land in the middle of a sample; fresh readers use a plain stream); every non-faulted call must equal the answer of a fresh reader asked once, in particular the call right after a faulted one; the same muxing history run twice must give identical bytes and the same bytes opened twice equal structures; distinct_nontrivial = distinct schedule shapes (sequence of call kinds with repeats collapsed, bucketed length)".into()
+        "seeded reader schedules (<= 300 calls of read_sample / sample_offset / sample_count / all track accessors / movie accessors / metadata; ids biased to 0,1,2,count-1,count,count+1,u32::MAX; unknown track ids; immediate repeats, A-B-A patterns, descending sweeps) over muxer-made, canned and packager images (fragmented ones also as init+segment), with transient hard stream faults inside some read_sample calls (the stream under the long-lived reader may split transfers or report EINTR, so a fault can land in the middle of a sample; fresh readers use a plain stream); every non-faulted call must equal the answer of a fresh reader asked once, in particular the call right after a faulted one; the same muxing history run twice must give identical bytes and the same bytes opened twice equal structures; distinct_nontrivial = distinct schedule shapes (sequence of call kinds with repeats collapsed, bucketed length); three cases per run mux their history twice with 1.1 s of real time between the runs (the only real delay in the machinery: the library reads no clock, so there is no seam to put one behind; an output that depends on the time of day shows here)".into()
     }
     fn assumptions() -> Vec<String> {
         vec![
@@ -445,6 +464,6 @@ impl Prop for C15 {
         ]
     }
     fn mandatory_probes(_t: Tier) -> Vec<&'static str> {
-        vec!["transient_faults_fired", "double_mux_runs", "image.frag", "image.canned_frag", "calls_compared"]
+        vec!["transient_faults_fired", "double_mux_runs", "probe.double_mux_across_a_second_boundary", "image.frag", "image.canned_frag", "calls_compared"]
     }
 }
